@@ -13,7 +13,7 @@ RULE = (
     "histories of encrypt-and-generate invocations with ONE key: (1) Hypothesis rule-based machines interleaving 'encrypt the same "
     "plaintext', 'encrypt a new plaintext', 'new Encryptor object', 're-import the encrypt script', 'through cmd_encrypt.main' and "
     "'through the CLI in a new process'; (2) storms in 14 worker processes, half reusing one Encryptor object and half creating "
-    "one per invocation as the CLI does, all with the same key and mostly the same plaintext; (3) CLI processes. Invariant: every "
+    "one per invocation as the CLI does, all with the same key and mostly the same plaintext; (3) CLI processes; (4) a process that has already encrypted fork()s four workers, parent and workers go on encrypting (inherited object / new object / re-imported script). Invariant: every "
     "published IV has 12 bytes, the artifact decrypts under its published IV (independent AES-GCM), and the IVs of the whole "
     "run - across all rules, objects and worker processes - are pairwise distinct (checked over the union in the main process). "
     "Non-trivial = history with >= 2 encryptions of identical plaintext and >= 1 object/process boundary; distinct by history hash "
@@ -60,7 +60,8 @@ class Session:
         self.reimport()
 
     def reimport(self):
-        self.mod = boot.load_by_path(sut.ENCRYPT_SCRIPT(), f"vf_enc_{id(self)}_{os.urandom(3).hex()}")
+        Session._n = getattr(Session, "_n", 0) + 1
+        self.mod = boot.load_by_path(sut.ENCRYPT_SCRIPT(), f"vf_enc_{os.getpid()}_{Session._n}")
         if not hasattr(self.mod, "suit_encryptor_factory"):
             raise boot.HarnessError("suit_encryptor_factory vanished")
         self.new_object()
@@ -201,11 +202,88 @@ def storm(ctx, acc, spec, ivfile):
         shutil.rmtree(d, ignore_errors=True)
 
 
+def forked(ctx, acc, spec, ivfile):
+    """A process that has already encrypted forks workers (the default way Python's multiprocessing starts them on Linux); parent and
+    children go on encrypting the same firmware with the same key. All published IVs must differ - state of the randomness source that
+    is copied by fork() must not be replayed."""
+    d = ctx.tmpdir("f")
+    kd = setup_keys(d)
+    pt = b"identical firmware"
+    total = 0
+    try:
+        for rnd in range(spec["rounds"]):
+            if ctx.expired():
+                break
+            s = Session(kd)
+            mode = ["inherited-object", "fresh-object", "reimport"][rnd % 3]
+            ivs = {}
+            for i in range(1 + rnd % 3):
+                ivs[s.encrypt(pt, f"parent-before-fork[{i}]")] = ("parent", i)
+            kids = []
+            for w in range(spec["workers"]):
+                r, wfd = os.pipe()
+                pid = os.fork()
+                if pid == 0:
+                    code = 0
+                    try:
+                        os.close(r)
+                        if mode == "fresh-object":
+                            s.new_object()
+                        elif mode == "reimport":
+                            s.reimport()
+                        out = b"IVS:"
+                        for i in range(spec["per"]):
+                            out += s.encrypt(pt, f"forked-worker{w}[{i}]")
+                        os.write(wfd, out)
+                    except Violation as v:
+                        os.write(wfd, b"VIO:" + f"{v.observed} || {v.expected}".encode()[:1500])
+                    except BaseException as e:  # noqa: B036 - the child must never return into the harness
+                        os.write(wfd, b"ERR:" + repr(e).encode()[:1500])
+                        code = 3
+                    finally:
+                        os._exit(code)
+                os.close(wfd)
+                kids.append((pid, r, w))
+            for i in range(spec["per"]):
+                iv = s.encrypt(pt, f"parent-after-fork[{i}]")
+                if iv in ivs:
+                    raise Violation(f"IV {iv.hex()} published twice in the parent process", "pairwise distinct IVs", bucket="iv-repeat")
+                ivs[iv] = ("parent-after-fork", i)
+            for pid, r, w in kids:
+                buf = b""
+                while True:
+                    chunk = os.read(r, 65536)
+                    if not chunk:
+                        break
+                    buf += chunk
+                os.close(r)
+                os.waitpid(pid, 0)
+                if buf.startswith(b"VIO:"):
+                    o, _, e = buf[4:].decode(errors="replace").partition(" || ")
+                    raise Violation(o, e)
+                if not buf.startswith(b"IVS:"):
+                    raise boot.HarnessError(f"forked worker failed: {buf[:300]!r}")
+                data = buf[4:]
+                for i in range(0, len(data), 12):
+                    iv = data[i:i + 12]
+                    if iv in ivs:
+                        raise Violation(f"IV {iv.hex()} published twice with the same key after fork ({mode}): by {ivs[iv]} and by forked worker {w} invocation {i // 12}",
+                                        "pairwise distinct IVs across parent and forked workers", bucket="iv-repeat-after-fork")
+                    ivs[iv] = (f"worker{w}", i // 12)
+            for iv in ivs:
+                ivfile.write(iv)
+            total += len(ivs)
+            acc.case(nt_key=("fork", rnd, mode), classes=["fork", f"fork:{mode}"], n=len(ivs), sample={"fork": mode, "workers": spec["workers"], "invocations": len(ivs)}, sample_key=f"fork/{mode}")
+    finally:
+        shutil.rmtree(d, ignore_errors=True)
+
+
 def plan(ctx):
     n = 16000 if not ctx.thorough else 110000
     specs = [{"kind": "storm", "i": i, "n": n, "mode": ["reused-object", "fresh-object", "reimport"][i % 3]} for i in range(14)]
     specs.append({"kind": "machine", "i": 0, "n": 25 if not ctx.thorough else 300, "steps": 40})
     specs.append({"kind": "cli", "n": 24 if not ctx.thorough else 256, "guard_off": True})
+    specs.append({"kind": "fork", "rounds": 6 if not ctx.thorough else 60, "workers": 4, "per": 300})
     return specs
 
 
@@ -216,6 +294,8 @@ def run_shard(ctx, spec):
         try:
             if spec["kind"] == "storm":
                 storm(ctx, acc, spec, ivfile)
+            elif spec["kind"] == "fork":
+                forked(ctx, acc, spec, ivfile)
             elif spec["kind"] == "machine":
                 run_machine(ctx, acc, "machine", make_machine(ctx, acc, ivfile), seed=ctx.seed * 1000 + spec["i"], n=spec["n"], steps=spec["steps"])
             else:
@@ -275,7 +355,7 @@ def replay(ctx, check, case):
 
 def finalize(ctx, m, ev):
     c = m["counters"]
-    for need in ("storm:reused-object", "storm:fresh-object", "storm:reimport", "machine", "cli-process"):
+    for need in ("storm:reused-object", "storm:fresh-object", "storm:reimport", "machine", "cli-process", "fork:inherited-object", "fork:reimport"):
         if not c.get(need):
             raise boot.HarnessError(f"interesting class {need} is empty")
     if m["info"].get("ivs_compared_pairwise", 0) < 1000:
